@@ -174,12 +174,27 @@ class Poly:
                     if e >= 2 and (d[0] in ("sin", "sqrt") or a == I_ATOM):
                         hit = (a, e, d)
                         break
+                    if d[0] == "fn" and d[1] == "root" and e >= int(d[2][1]):
+                        hit = (a, e, d)
+                        break
                 if hit is None:
                     out = out + Poly({m: c})
                     continue
                 changed = True
                 a, e, d = hit
                 rest = tuple((x, y) for (x, y) in m if x != a)
+                if d[0] == "fn":
+                    nn = int(d[2][1])
+                    q, r = divmod(e, nn)
+                    num, den = _poly_from_key(d[2][0][1]), _poly_from_key(d[2][0][2])
+                    if not den.is_const():
+                        raise Unsupported("root of a quotient inside a polynomial")
+                    repl = num.scale(1 / den.const_value())
+                    term = Poly({rest: c}) * (repl ** q)
+                    if r:
+                        term = term * Poly.atom(a, r)
+                    out = out + term
+                    continue
                 q, r = divmod(e, 2)
                 if a == I_ATOM:
                     repl = Poly.const(-1)
@@ -267,8 +282,9 @@ def _mono_mul(m1, m2):
             d[na] = 1
     for a, e in d.items():
         if e >= 2:
-            k = _ATOM_LIST[a][0]
-            if k in ("sin", "sqrt") or a == I_ATOM:
+            dd = _ATOM_LIST[a]
+            k = dd[0]
+            if k in ("sin", "sqrt") or a == I_ATOM or (k == "fn" and dd[1] == "root" and e >= int(dd[2][1])):
                 red = True
                 break
     return tuple(sorted(d.items())), None, red
@@ -402,6 +418,9 @@ class Rat:
             return Rat(self.d ** (-n), self.n ** (-n))
         if n.denominator == 2:
             r = sqrt(self)
+            return r ** int(n.numerator)
+        if n > 0:
+            r = root(self, n.denominator)
             return r ** int(n.numerator)
         raise Unsupported(f"power {n}")
 
@@ -567,6 +586,22 @@ def _isqrt(n):
 
     r = math.isqrt(n)
     return r if r * r == n else None
+
+
+def root(r, n):
+    """principal n-th root as an opaque atom with root(x, n)^n = x"""
+    r = _R(r)
+    one = Poly.const(1)
+
+    def at(p):
+        if p.is_const():
+            c = p.const_value()
+            for k in range(1, 200):
+                if Fraction(k) ** n == c:
+                    return Poly.const(k)
+        return Poly.atom(_intern(("fn", "root", (("rat", p.key(), one.key()), f"{n}"))))
+    # formal identity for positive quantities: root(a/b) = root(a)/root(b)
+    return Rat(at(r.n), at(r.d))
 
 
 def fn(name, *args):
